@@ -43,6 +43,12 @@ def source_docs(tier, rng):
         for kk in (k, k + 3):
             tt, what = textual(t, kk)
             out.append((f'{lbl} [{what}]', tt))
+    # IDs as a pretty-printer or a vendor writes them: padded, on their own line, case variants - metadata is the text itself
+    for what, rid, mid in (('padded roID', '  RO1 ', '12'), ('roID on its own line', '\n      RO-7\n    ', '13'), ('tab in roID', 'RO\t1', '14'),
+                           ('padded messageID', 'RO1', ' 15 '), ('messageID on its own line', 'RO1', '\n   16\n  '), ('zero-padded messageID', 'ro1', '0017')):
+        out.append((f'{what}: roStoryAppend', TJ.to_text(B.story_append([B.story('P1', [])], message_id=mid, ro_id=rid))))
+        out.append((f'{what}: roCreate', TJ.to_text(B.ro_doc([B.story('P1', [])], message_id=mid, ro_id=rid))))
+        out.append((f'{what}: roDelete', TJ.to_text(B.ro_delete(message_id=mid, ro_id=rid))))
     g = gen_hist.Gen(rng)
     out.append(('attribute values with quotes', TJ.to_text(B.story_append([B.story('Q', [B.item('Q1', extra=[E('x', text='t', attrs={'note': 'the "late" edition', 'a': "it's", 'nl': 'a\nb', 'amp': 'a&b<c>'})])])], message_id='77'))))
     for k in range(20 if tier == 'quick' else 200):
@@ -400,6 +406,8 @@ def run_cli(argv):
             rv = cli.CLI()(argv)
         except SystemExit as e:
             rv = f'SystemExit:{e.code}'
+        except Exception as e:  # noqa: BLE001 - the command died with a traceback: what a shell would show as status 1
+            rv = f'raised:{type(e).__name__}'
     return out.getvalue(), err.getvalue(), rv
 
 
@@ -458,6 +466,11 @@ def file_pool(rng):
     # running orders whose timing metadata is not numeric / not a time: classifiable, so inspect lists their stories and goes on
     pool['clock_durations_ro.mos.xml'] = ('xml', TJ.to_text(B.ro_doc([B.story('J1', [B.item('j1')], md=B.timing_md(duration='00:01:30')), B.story('J2', [])], message_id='1')))
     pool['junk_start_ro.mos.xml'] = ('xml', TJ.to_text(B.ro_doc([B.story('J1', [], md=B.timing_md(text_time='nan', media_time=''))], message_id='1', ed_start='tomorrow-ish')))
+    # files that are not UTF-8: another declared encoding (classifiable like any other), and bytes that are no XML at all
+    accents = TJ.to_text(B.story_append([B.story('caf\u00e9', [B.p('na\u00efve \u00a320')])], message_id='88'))
+    pool['latin1.mos.xml'] = ('xmlbytes', ('<?xml version="1.0" encoding="ISO-8859-1"?>' + accents).encode('iso-8859-1'), accents)
+    pool['utf16.mos.xml'] = ('xmlbytes', ('<?xml version="1.0" encoding="UTF-16"?>' + accents).encode('utf-16'), accents)
+    pool['binary.dat'] = ('notxmlbytes', bytes(range(128, 256)) + b'\x00\xff\xfe<mos>')
     return pool
 
 
@@ -466,6 +479,9 @@ def materialise(pool, root):
         p = os.path.join(root, name)
         if spec[0] in ('xml', 'notxml'):
             with open(p, 'w', encoding='utf-8') as f:
+                f.write(spec[1])
+        elif spec[0] in ('xmlbytes', 'notxmlbytes'):
+            with open(p, 'wb') as f:
                 f.write(spec[1])
         elif spec[0] == 'directory':
             os.makedirs(p, exist_ok=True)
@@ -483,8 +499,10 @@ def model_files(pool, names, root, how='abs'):
         path = spell_path(root, n, how)
         if spec[0] == 'xml':
             out.append([path, TJ.parse(spec[1])])
+        elif spec[0] == 'xmlbytes':
+            out.append([path, TJ.parse(spec[2])])
         else:
-            out.append([path, {'notxml': 'notxml', 'missing': 'missing', 'directory': 'directory'}[spec[0]]])
+            out.append([path, {'notxml': 'notxml', 'notxmlbytes': 'notxml', 'missing': 'missing', 'directory': 'directory'}[spec[0]]])
     return out
 
 
@@ -679,7 +697,7 @@ def run_c19(tier, seed):
             oc.in_domain += 1
             oc.count('cmd:' + cmd)
             paths = [spell_path(root, n, opts.get('paths', 'abs')) for n in lst]
-            rec = {'kind': 'cli', 'cmd': cmd, 'files': [[n] + list(pool[n]) for n in lst], 'opts': opts, 'label': f'{cmd} {" ".join(lst)} {opts}'}
+            rec = {'kind': 'cli', 'cmd': cmd, 'files': [[n] + [x.hex() if isinstance(x, bytes) else x for x in pool[n]] for n in lst], 'opts': opts, 'label': f'{cmd} {" ".join(lst)} {opts}'}
             if cmd in ('detect', 'inspect'):
                 so, se, rv = run_cli([cmd, '-f'] + paths)
                 status = 0 if rv is None else rv
@@ -819,7 +837,7 @@ def run_c19(tier, seed):
 def replay_c19(pid, fl):
     root = tempfile.mkdtemp(prefix='mrm-cli-')
     try:
-        pool = {f[0]: tuple(f[1:]) for f in fl['files']}
+        pool = {f[0]: tuple(bytes.fromhex(x) if i == 1 and f[1] in ('xmlbytes', 'notxmlbytes') else x for i, x in enumerate(f[1:])) for f in fl['files']}
         materialise(pool, root)
         opts = fl['opts']
         paths = [spell_path(root, f[0], opts.get('paths', 'abs')) for f in fl['files']]
